@@ -58,6 +58,13 @@ Definition selfview := key -> option value.
    already-bound method object stored on a class: none of these is re-bound on access)
    or a function / property defined in the class body, whose result depends on the
    instance it is looked up through (descriptor rule: `self` is bound at access). *)
+(* LIMITATION (open msdm defect C15:augment:of-derived-mdp:overridden-component-unusable): a CVal is
+   never re-bound on access.  That is right for data, for bound methods and for staticmethod
+   objects, but a PLAIN FUNCTION stored un-wrapped on a class is bound as a method by Python.
+   augment(augment(m, reward=f), ...) does exactly that with f (`AugmentedMDP.reward = mdp.reward`
+   where mdp.reward is the plain f), and every later call raises TypeError; the model predicts f
+   preserved.  The harness reports those derivations as property violations and does not compare
+   the model on them. *)
 Inductive centry : Type :=
 | CVal (v : value)
 | CFun (body : selfview -> option value).
